@@ -455,7 +455,7 @@ func main() {
 	rng := vlib.NewRand(a.Seed)
 	nmain, nflag := 260, 45
 	if a.Thorough() {
-		nmain, nflag = 5000, 500
+		nmain, nflag = 2000, 200
 	}
 	var one func(h hist)
 	run := func(flag string, n int) {
